@@ -206,6 +206,27 @@ package network
 //@     invariant [complete] forall c :: 0 <= c && c < #idx2 && ctlFedBy(n.controlNodes[c], id) ==> (exists p :: len(node.Incoming) <= p && p < len(nodes) && sel(gWit, p) == c)
 //@     invariant [notYet] forall k :: 0 <= k && k <= #idx ==> cn.Outgoing[k].OutNode.Id != id
 
+// Link count: the number of incoming links over all ordinary nodes, plus, for modular networks, every control node's incoming and outgoing
+// links (sumField(list, lenOf(T.f)) = sum of the lengths of slice field f over the listed objects, a recursive specification function).
+//@ func (*Network).LinkCount
+//@   props C11
+//@   requires n != nil && netNodesWF(n)
+//@   modifies Network.numLinks
+//@   ensures [plain] len(n.controlNodes) == 0 ==> result == sumField(n.allNodes, lenOf(NNode.Incoming))
+//@   ensures [modular] len(n.controlNodes) != 0 ==> result == sumField(n.allNodes, lenOf(NNode.Incoming)) + sumField(n.controlNodes, lenOf(NNode.Incoming)) + sumField(n.controlNodes, lenOf(NNode.Outgoing))
+//@   ensures [stored] n.numLinks == result
+//@   loop 1:
+//@     invariant -1 <= #idx && #idx < len(n.allNodes) && n.numLinks == sumField(n.allNodes[0:#idx+1], lenOf(NNode.Incoming))
+//@   loop 2:
+//@     invariant -1 <= #idx && #idx < len(n.controlNodes) && n.numLinks == sumField(n.allNodes, lenOf(NNode.Incoming)) + sumField(n.controlNodes[0:#idx+1], lenOf(NNode.Incoming)) + sumField(n.controlNodes[0:#idx+1], lenOf(NNode.Outgoing))
+
+//@ func (*Network).Complexity
+//@   props C11
+//@   requires n != nil && netNodesWF(n)
+//@   modifies Network.numLinks
+//@   ensures [plain] len(n.controlNodes) == 0 ==> result == len(n.allNodes) + sumField(n.allNodes, lenOf(NNode.Incoming))
+//@   ensures [modular] len(n.controlNodes) != 0 ==> result == len(n.allNodes) + len(n.controlNodes) + sumField(n.allNodes, lenOf(NNode.Incoming)) + sumField(n.controlNodes, lenOf(NNode.Incoming)) + sumField(n.controlNodes, lenOf(NNode.Outgoing))
+
 // ---- C06 / C13: node constructors ----------------------------------------------------------------
 //@ func NewNNodeCopy
 //@   props C06
